@@ -7,8 +7,8 @@ ROOT = os.path.dirname(os.path.dirname(os.path.abspath(__file__)))
 PROPS = os.path.join(ROOT, 'lean', 'ChessVerif', 'Props')
 
 META = {
- 'C01': dict(files=['C01', 'C01Struct', 'C01King', 'C01NonKing', 'C01Ep', 'PinCheck'], rule="positions from corpus, weighted playouts and synthesized valid set-ups (POS); the 20480-triple legality query on a subsample (LEGAL)"),
- 'C02': dict(files=['C02', 'C02Ep:C02_'], rule="every legal move of positions along playouts, make_move_new and make_move into three prefilled boards (MAKE)"),
+ 'C01': dict(files=['C01', 'C01Struct', 'C01King', 'C01NonKing', 'C01Ep', 'PinCheck', 'C01Plausible:C01_'], rule="positions from corpus, weighted playouts and synthesized valid set-ups (POS); the 20480-triple legality query on a subsample (LEGAL)"),
+ 'C02': dict(files=['C02', 'C02Ep:C02_', 'C01Plausible:C02_'], rule="every legal move of positions along playouts, make_move_new and make_move into three prefilled boards (MAKE)"),
  'C03': dict(files=['C03', 'C03Step', 'Deprecated:C03_'], rule="positions reached incrementally along playouts with interleaved null moves, compared field by field with the from-scratch spec computation and with the re-parse of their own FEN"),
  'C04': dict(files=['C04', 'Compose:C04_'] if not os.environ.get('NO_COMPOSE') else ['C04'], rule="positions with terminal ones over-represented (mates, stalemates, small endgames)"),
  'C05': dict(files=['C05', 'Compose:C05_'] if not os.environ.get('NO_COMPOSE') else ['C05'], rule="MAKE lines along 300-ply playouts and complete move trees; Valid / is_sane / monotone counts checked on every successor"),
